@@ -18,6 +18,7 @@ PROPS = {
         "scope_regex": r"^crash ",
         "nontrivial_regex": r"^crash (fs|fetch|bcast|gettx|giveup|wait|crash|restart|include|drop|corrupttmp|tamper) .* => (?!err:)",
         "thorough_seeds": 1,
+        "search_seeds": 1,
         "rule": "in-crate harness (child module of `relayer`) runs the REAL Relayer::run (new_from_path, BlockStream reader, "
                 "BlobSubmitter::run, try_confirm_submission_from_last_session, submit_with_retry/try_submit, State::{read,write} with "
                 "temp-file + rename) against in-process fakes of the Celestia app gRPC (held BroadcastTx/GetTx, truthful GetTx against a fake "
